@@ -2,5 +2,6 @@ SPECIFICATION Spec
 CONSTANTS
   Fams = {"plain", "test", "len", "sub", "rem", "repl", "case", "at", "ind", "names", "keys"}
   MaxPat = 2
+  MaxPatRepl = 1
   Wide = FALSE
 INVARIANTS Inv
